@@ -44,6 +44,25 @@ func mentionsField(v ssa.Value, names ...string) bool {
 	return found
 }
 
+// mentionsFieldOf: the backward slice of v reads field `field` of a value of the named struct type `typ`.
+func mentionsFieldOf(v ssa.Value, typ, field string) bool {
+	found := false
+	backslice(v, func(x ssa.Value) bool {
+		switch y := x.(type) {
+		case *ssa.FieldAddr:
+			if pt, ok := y.X.Type().Underlying().(*types.Pointer); ok && namedOf(pt.Elem()) == typ && fieldName(y) == field {
+				found = true
+			}
+		case *ssa.Field:
+			if st, ok := y.X.Type().Underlying().(*types.Struct); ok && y.Field < st.NumFields() && namedOf(y.X.Type()) == typ && st.Field(y.Field).Name() == field {
+				found = true
+			}
+		}
+		return !found
+	})
+	return found
+}
+
 // ---------- R11z: the array part of the decoder state changes as one ----------
 
 var rR11z = RuleRef{Name: "R11z", Doc: "the decoder's request-in-progress is one unit: the three fields of the read state that describe it (arrayLen, inArray, arrayData) are only ever written together -- in the same basic block, or by replacing the whole record. The parser tests `inArray` to decide whether a line is an element and dereferences `arrayData` when it is: a reset that clears two of the three leaves a state in which the next top-level value is appended to a nil request", Run: func(c *C) {
@@ -108,11 +127,11 @@ var rR16i = RuleRef{Name: "R16i", Doc: "a raft node that takes its progress from
 				}
 				switch fieldName(fa) {
 				case "appliedIndex":
-					if mentionsField(st.Val, "Metadata") {
+					if mentionsFieldOf(st.Val, "SnapshotMetadata", "Index") {
 						trigger = st
 					}
 				case "confState":
-					if mentionsField(st.Val, "ConfState") {
+					if mentionsFieldOf(st.Val, "SnapshotMetadata", "ConfState") {
 						conf = true
 					}
 				}
@@ -229,13 +248,89 @@ var rR18d = RuleRef{Name: "R18d", Doc: "a stream keeps its entries twice, as an 
 
 var rR16j = RuleRef{Name: "R16j", Doc: "reading the WAL back, an entry record whose index lies above the start index replaces the in-memory log from its position on, whatever its term: between the decoding of the record and the truncating append only a comparison of the record's index with the start index may lead past the append; any other way past it ends the read with an error. A later record for an index that was read before is how the log says that a new leader overwrote uncommitted entries -- possibly with entries of a lower term: a reader that skips such a record resurrects entries the cluster discarded", Run: func(c *C) {
 	n := 0
+	type job struct {
+		fn    *ssa.Function
+		sb    *ssa.BasicBlock
+		entry ssa.Value // the decoded entry: the call, or the helper's parameter it was handed to
+		pos   token.Pos
+	}
+	var jobs []job
+	// anchored at what is done, not at a name: every append of a raftpb.Entry to a slice of entries in the wal package,
+	// walked from where that entry value came into being (a decoding call's result, a local a decoder filled, or the
+	// parameter of a helper that places the entry)
+	seenJob := map[string]bool{}
 	for _, fn := range c.P.allFuncs(walPkg) {
-		for _, sb := range fn.Blocks {
-			for _, in := range sb.Instrs {
-				call, ok := in.(*ssa.Call)
-				if !ok || callName(call) != "mustUnmarshalEntry" {
+		for _, b := range fn.Blocks {
+			for _, in := range b.Instrs {
+				ap, ok := isAppend2(in)
+				if !ok || len(ap.Call.Args) != 2 {
 					continue
 				}
+				sl, ok := ap.Type().Underlying().(*types.Slice)
+				if !ok || namedOf(sl.Elem()) != "Entry" {
+					continue
+				}
+				// a truncating append: the destination is a prefix of the log read so far
+				if _, isCut := ap.Call.Args[0].(*ssa.Slice); !isCut {
+					continue
+				}
+				elems, _ := sliceLiteralElems(ap.Call.Args[1])
+				for _, e := range elems {
+					var entry ssa.Value
+					var sb *ssa.BasicBlock
+					var pos token.Pos
+					switch y := e.(type) {
+					case *ssa.Call:
+						entry, sb, pos = y, y.Block(), y.Pos()
+					case *ssa.Parameter:
+						entry, sb, pos = y, fn.Blocks[0], fn.Pos()
+					case *ssa.UnOp:
+						al, ok := y.X.(*ssa.Alloc)
+						if !ok || al.Referrers() == nil {
+							continue
+						}
+						for _, r := range *al.Referrers() {
+							switch z := r.(type) {
+							case *ssa.Store:
+								if z.Addr == ssa.Value(al) {
+									switch v := z.Val.(type) {
+									case *ssa.Call:
+										entry, sb, pos = v, v.Block(), v.Pos()
+									case *ssa.Parameter:
+										entry, sb, pos = v, fn.Blocks[0], fn.Pos()
+									}
+								}
+							case *ssa.Call:
+								// a decoder that fills the local: MustUnmarshal(&e, data)
+								for _, a := range z.Call.Args {
+									if a == ssa.Value(al) {
+										entry, sb, pos = al, z.Block(), z.Pos()
+									}
+									if mi, ok := a.(*ssa.MakeInterface); ok && mi.X == ssa.Value(al) {
+										entry, sb, pos = al, z.Block(), z.Pos()
+									}
+								}
+							}
+						}
+					}
+					if entry == nil {
+						continue
+					}
+					key := fmt.Sprintf("%s|%d|%s", fn.String(), sb.Index, entry.Name())
+					if seenJob[key] {
+						continue
+					}
+					seenJob[key] = true
+					jobs = append(jobs, job{fn, sb, entry, pos})
+				}
+			}
+		}
+	}
+	for _, jb := range jobs {
+		{
+			{
+				fn, sb, pos := jb.fn, jb.sb, jb.pos
+				var call ssa.Value = jb.entry
 				// the appends of this entry
 				var appends []*ssa.Call
 				for _, b := range fn.Blocks {
@@ -248,16 +343,19 @@ var rR16j = RuleRef{Name: "R16j", Doc: "reading the WAL back, an entry record wh
 						elems, _ := sliceLiteralElems(ap.Call.Args[1])
 						for _, e := range elems {
 							backslice(e, func(x ssa.Value) bool {
-								if x == ssa.Value(call) {
+								if x == call {
 									uses = true
 								}
 								return !uses
 							})
+							if u, ok := e.(*ssa.UnOp); ok && u.X == call {
+								uses = true
+							}
 							// the entry may sit in a local the literal copies from
 							if u, ok := e.(*ssa.UnOp); ok {
 								if al, ok := u.X.(*ssa.Alloc); ok && al.Referrers() != nil {
 									for _, r := range *al.Referrers() {
-										if st, ok := r.(*ssa.Store); ok && st.Addr == ssa.Value(al) && st.Val == ssa.Value(call) {
+										if st, ok := r.(*ssa.Store); ok && st.Addr == ssa.Value(al) && st.Val == call {
 											uses = true
 										}
 									}
@@ -327,7 +425,10 @@ var rR16j = RuleRef{Name: "R16j", Doc: "reading the WAL back, an entry record wh
 								}
 							}
 						case *ssa.Call:
-							if x != ssa.Value(call) {
+							if bi, isB := y.Call.Value.(*ssa.Builtin); isB && bi.Name() == "len" {
+								return false
+							}
+							if x != call {
 								okLeaves = false
 							}
 							return false
@@ -335,6 +436,49 @@ var rR16j = RuleRef{Name: "R16j", Doc: "reading the WAL back, an entry record wh
 						return okLeaves
 					})
 					return okLeaves && sawIndex
+				}
+				// a verdict computed by an arithmetic helper from the two indexes (up, keep, ok := entrySlot(e.Index,
+				// w.start.Index, len(ents))): the helper sees no term
+				helperVerdict := func(b *ssa.BasicBlock) bool {
+					iff, ok := b.Instrs[len(b.Instrs)-1].(*ssa.If)
+					if !ok {
+						return false
+					}
+					cv := iff.Cond
+					for {
+						u, isNot := cv.(*ssa.UnOp)
+						if !isNot || u.Op != token.NOT {
+							break
+						}
+						cv = u.X
+					}
+					var hc *ssa.Call
+					switch y := cv.(type) {
+					case *ssa.Extract:
+						hc, _ = y.Tuple.(*ssa.Call)
+					case *ssa.Call:
+						hc = y
+					}
+					if hc == nil {
+						return false
+					}
+					cf := hc.Call.StaticCallee()
+					if cf == nil || cf.Blocks == nil || cf.Pkg != fn.Pkg {
+						return false
+					}
+					sawIndex := false
+					for _, a := range hc.Call.Args {
+						if !isIntType(a.Type()) {
+							return false
+						}
+						if mentionsField(a, "Term") {
+							return false
+						}
+						if mentionsField(a, "Index") {
+							sawIndex = true
+						}
+					}
+					return sawIndex
 				}
 				var bad []string
 				seen := map[*ssa.BasicBlock]bool{}
@@ -363,14 +507,14 @@ var rR16j = RuleRef{Name: "R16j", Doc: "reading the WAL back, an entry record wh
 						return
 					}
 					for _, s := range b.Succs {
-						if indexTest(b) && !can[s] {
+						if (indexTest(b) || helperVerdict(b)) && !can[s] {
 							continue // the record lies at or below the start index
 						}
 						walk(s)
 					}
 				}
 				walk(sb)
-				c.Add("R16j", fnName(fn), "a decoded entry above the start index is appended or the read fails", call.Pos(), len(bad) == 0, strings.Join(uniq(bad), "; "))
+				c.Add("R16j", fnName(fn), "a decoded entry above the start index is appended or the read fails", pos, len(bad) == 0, strings.Join(uniq(bad), "; "))
 			}
 		}
 	}
@@ -467,12 +611,41 @@ func firstIndexOf(v ssa.Value, batch ssa.Value) bool {
 var rR16l = RuleRef{Name: "R16l", Doc: "the committed entries handed to the state machine start right behind the applied index: in the raftexample function that trims a committed batch against RaftNode.appliedIndex, every slice of the batch starts at (applied index) - (index of the batch's first entry) + 1, written in any order (compared as a linear form, not as text). One less and the entry at the applied index is executed a second time on this replica only: INCR, APPEND, LPUSH diverge silently, the proposer's callback was already consumed", Run: func(c *C) {
 	n := 0
 	for _, fn := range c.P.allFuncs("raftexample") {
-		if len(fn.Params) < 2 || fn.Signature.Recv() == nil || namedOf(fn.Signature.Recv().Type()) != "RaftNode" {
+		if len(fn.Params) < 2 {
 			continue
+		}
+		// the applied index: the node's field, or a parameter that every caller fills from it
+		isApplied := func(v ssa.Value) bool {
+			if v == nil {
+				return false
+			}
+			if strings.HasSuffix(canon(v), ".appliedIndex") {
+				return true
+			}
+			prm, ok := v.(*ssa.Parameter)
+			if !ok {
+				return false
+			}
+			idx := -1
+			for i, p := range fn.Params {
+				if p == prm {
+					idx = i
+				}
+			}
+			sites := c.callSitesOf(fn)
+			if idx < 0 || len(sites) == 0 {
+				return false
+			}
+			for _, cs := range sites {
+				if idx >= len(cs.Common().Args) || !strings.HasSuffix(canon(cs.Common().Args[idx]), ".appliedIndex") {
+					return false
+				}
+			}
+			return true
 		}
 		// the batch parameter: a slice of raftpb.Entry
 		var batch *ssa.Parameter
-		for _, p := range fn.Params[1:] {
+		for _, p := range fn.Params {
 			if sl, ok := p.Type().Underlying().(*types.Slice); ok && namedOf(sl.Elem()) == "Entry" {
 				batch = p
 			}
@@ -491,7 +664,7 @@ var rR16l = RuleRef{Name: "R16l", Doc: "the committed entries handed to the stat
 				// only cuts that are computed from the applied index are this rule's business
 				usesApplied := false
 				for name := range coef {
-					if strings.HasSuffix(name, ".appliedIndex") {
+					if isApplied(leaves[name]) {
 						usesApplied = true
 					}
 				}
@@ -505,7 +678,7 @@ var rR16l = RuleRef{Name: "R16l", Doc: "the committed entries handed to the stat
 				for name, cf := range coef {
 					desc = append(desc, fmt.Sprintf("%+d*%s", cf, name))
 					switch {
-					case strings.HasSuffix(name, ".appliedIndex"):
+					case isApplied(leaves[name]):
 						okForm = okForm && cf == 1
 					case firstIndexOf(leaves[name], batch):
 						okForm = okForm && cf == -1
@@ -562,41 +735,7 @@ var rR16b = RuleRef{Name: "R16b", Doc: "what the raft loop hands to the apply lo
 						}
 						n++
 						ord++
-						bad := ""
-						seen := map[ssa.Value]bool{}
-						var root func(v ssa.Value)
-						root = func(v ssa.Value) {
-							if seen[v] || bad != "" {
-								return
-							}
-							seen[v] = true
-							switch y := v.(type) {
-							case *ssa.MakeSlice:
-							case *ssa.Const:
-							case *ssa.Phi:
-								for _, e := range y.Edges {
-									root(e)
-								}
-							case *ssa.Slice:
-								root(y.X)
-							case *ssa.Call:
-								if ap, ok := isAppend(y); ok {
-									root(ap.Call.Args[0])
-									return
-								}
-								if cf := y.Call.StaticCallee(); cf != nil && freshSliceResult(cf) {
-									return
-								}
-								bad = "the result of " + callName(y)
-							case *ssa.UnOp:
-								bad = "a load of " + canon(y)
-							case *ssa.Parameter:
-								bad = "parameter " + y.Name()
-							default:
-								bad = fmt.Sprintf("%T", v)
-							}
-						}
-						root(st.Val)
+						bad := c.sliceRootedOutside(st.Val, 0, map[ssa.Value]bool{})
 						c.Add("R16b", fnName(fn), fmt.Sprintf("slice #%d of a record sent over a channel is built in the sending function", ord), st.Pos(), bad == "", "its backing array comes from "+bad)
 					}
 				}
@@ -607,43 +746,106 @@ var rR16b = RuleRef{Name: "R16b", Doc: "what the raft loop hands to the apply lo
 	c.Min("R16b_sent_slices", 1)
 }}
 
-// freshSliceResult: every return of fn hands back a slice made in fn (make, nil, appends to those).
-func freshSliceResult(fn *ssa.Function) bool {
-	if fn.Blocks == nil || fn.Signature.Results().Len() == 0 {
-		return false
+// sliceRootedOutside follows a slice value back to where its backing array comes from -- through phis, re-slicing,
+// appends, the parameters of unexported helpers (to every call site's argument) and the results of first-party helpers (to
+// what they return) -- and names the first origin that is not a `make`/nil of the functions walked; "" if there is none.
+func (c *C) sliceRootedOutside(v ssa.Value, depth int, seen map[ssa.Value]bool) string {
+	if seen[v] {
+		return ""
 	}
-	ok := true
-	seen := map[ssa.Value]bool{}
-	var root func(v ssa.Value)
-	root = func(v ssa.Value) {
-		if seen[v] || !ok {
-			return
-		}
-		seen[v] = true
-		switch y := v.(type) {
-		case *ssa.MakeSlice, *ssa.Const:
-		case *ssa.Phi:
-			for _, e := range y.Edges {
-				root(e)
-			}
-		case *ssa.Slice:
-			root(y.X)
-		case *ssa.Call:
-			if ap, isAp := isAppend(y); isAp {
-				root(ap.Call.Args[0])
-				return
-			}
-			ok = false
-		default:
-			ok = false
-		}
+	seen[v] = true
+	if depth > 4 {
+		return "a chain of helpers deeper than the analysis follows"
 	}
+	switch y := v.(type) {
+	case *ssa.MakeSlice:
+		return ""
+	case *ssa.Const:
+		return ""
+	case *ssa.Phi:
+		for _, e := range y.Edges {
+			if b := c.sliceRootedOutside(e, depth, seen); b != "" {
+				return b
+			}
+		}
+		return ""
+	case *ssa.Slice:
+		return c.sliceRootedOutside(y.X, depth, seen)
+	case *ssa.Call:
+		if ap, ok := isAppend(y); ok {
+			return c.sliceRootedOutside(ap.Call.Args[0], depth, seen)
+		}
+		if cf := y.Call.StaticCallee(); cf != nil && cf.Blocks != nil && firstParty(cf) {
+			return c.resultRootedOutside(cf, 0, depth+1, seen)
+		}
+		return "the result of " + callName(y)
+	case *ssa.Extract:
+		if call, ok := y.Tuple.(*ssa.Call); ok {
+			if cf := call.Call.StaticCallee(); cf != nil && cf.Blocks != nil && firstParty(cf) {
+				return c.resultRootedOutside(cf, y.Index, depth+1, seen)
+			}
+		}
+		return "a tuple result"
+	case *ssa.UnOp:
+		return "a load of " + canon(y)
+	case *ssa.Parameter:
+		fn := y.Parent()
+		idx := -1
+		for i, p := range fn.Params {
+			if p == y {
+				idx = i
+			}
+		}
+		sites := c.callSitesOf(fn)
+		if idx < 0 || len(sites) == 0 || (fn.Object() != nil && fn.Object().Exported()) {
+			return "parameter " + y.Name() + " of " + fn.Name()
+		}
+		for _, cs := range sites {
+			args := cs.Common().Args
+			if idx >= len(args) {
+				return "parameter " + y.Name()
+			}
+			if b := c.sliceRootedOutside(args[idx], depth+1, seen); b != "" {
+				return b
+			}
+		}
+		return ""
+	}
+	return fmt.Sprintf("%T", v)
+}
+
+func (c *C) resultRootedOutside(fn *ssa.Function, k int, depth int, seen map[ssa.Value]bool) string {
 	for _, b := range fn.Blocks {
-		if ret, isRet := b.Instrs[len(b.Instrs)-1].(*ssa.Return); isRet {
-			root(retResults(ret)[0][0])
+		ret, ok := b.Instrs[len(b.Instrs)-1].(*ssa.Return)
+		if !ok || k >= len(ret.Results) {
+			continue
+		}
+		for _, v := range retResults(ret)[k] {
+			if bad := c.sliceRootedOutside(v, depth, seen); bad != "" {
+				return bad
+			}
 		}
 	}
-	return ok
+	return ""
+}
+
+// callSitesOf: the static call sites of fn in the first-party packages.
+func (c *C) callSitesOf(fn *ssa.Function) []ssa.CallInstruction {
+	if c.callSiteMemo == nil {
+		c.callSiteMemo = map[*ssa.Function][]ssa.CallInstruction{}
+		for _, f := range c.P.allFuncs(firstPartyPkgs...) {
+			for _, b := range f.Blocks {
+				for _, in := range b.Instrs {
+					if ci, ok := in.(ssa.CallInstruction); ok {
+						if cf := ci.Common().StaticCallee(); cf != nil {
+							c.callSiteMemo[cf] = append(c.callSiteMemo[cf], ci)
+						}
+					}
+				}
+			}
+		}
+	}
+	return c.callSiteMemo[fn]
 }
 
 // ---------- R15l: the multi-key commands hold their keys together ----------
